@@ -80,6 +80,12 @@ pub fn build_del_case_shaped(sec: usize, n: usize, mask: u32, opt_pos: usize, de
     let mk = |i: usize, ttl: u32| -> Record {
         let owner = names[i % names.len()].clone();
         match i % 4 {
+            // an SRV record whose target is written as a pointer to the owner name of the first answer record
+            // (opaque data for the library: it must survive every deletion byte for byte)
+            0 if i % 8 == 4 && (shape == 0 || shape == 4) => {
+                // (the pointer bytes are fixed up below, once the layout is known)
+                Record { owner, rtype: T_SRV, class: 1, ttl, rdata: Rdata::Opaque(vec![0, 1, 0, 2, 0, 80, 3, b's', b'i', b'p', 0xc0, 0x0c]) }
+            }
             0 => Record { owner, rtype: T_A, class: 1, ttl, rdata: Rdata::A([10, 0, 0, i as u8]) },
             1 => Record { owner, rtype: T_NS, class: 1, ttl, rdata: Rdata::Name1(names[(i + 2) % names.len()].clone()) },
             2 => Record { owner, rtype: T_MX, class: 1, ttl, rdata: Rdata::Mx(i as u16, names[(i + 1) % names.len()].clone()) },
@@ -120,12 +126,43 @@ pub fn build_del_case_shaped(sec: usize, n: usize, mask: u32, opt_pos: usize, de
         };
         m.ar.insert(at, o);
     }
-    let bytes = if compressed {
-        let mut s = Src::new(layout_seed);
-        encode(&m, Layout::Random(&mut s)).bytes
-    } else {
-        encode(&m, Layout::Literal).bytes
+    let enc_once = |m: &Message| {
+        if compressed {
+            let mut s = Src::new(layout_seed);
+            encode(m, Layout::Random(&mut s))
+        } else {
+            encode(m, Layout::Literal)
+        }
     };
+    let mut e = enc_once(&m);
+    // SRV targets: point at the owner name of the nearest earlier record that has a non-root owner
+    // (same data length, so the layout - a function of the seed - does not change)
+    let mut patched = false;
+    {
+        let mut earlier: Option<usize> = None;
+        for sidx in 0..3 {
+            for ridx in 0..m.section(sidx + 1).len() {
+                let off = e.recs[sidx][ridx].start;
+                let r = &mut m.section_mut(sidx + 1)[ridx];
+                if r.rtype == T_SRV {
+                    if let (Some(t), Rdata::Opaque(d)) = (earlier, &mut r.rdata) {
+                        if t < 16384 && d.len() == 12 {
+                            d[10] = 0xc0 | (t >> 8) as u8;
+                            d[11] = t as u8;
+                            patched = true;
+                        }
+                    }
+                }
+                if !r.owner.is_root() && r.rtype != T_OPT {
+                    earlier = Some(off);
+                }
+            }
+        }
+    }
+    if patched {
+        e = enc_once(&m);
+    }
+    let bytes = e.bytes;
     let delete: Vec<u32> = (0..n).filter(|i| mask & (1 << i) != 0).map(|i| 1000 + i as u32).collect();
     let delete_opt = delete_opt && opt_pos > 0 && incl_opt && sec == 3;
     let desc = format!("sec={} n={} delete={:?} opt_pos={} delete_opt={} incl_opt={} compressed={} filler={} others={:?} shape={}", sec, n, delete, opt_pos, delete_opt, incl_opt, compressed, filler, others, shape);
